@@ -191,7 +191,7 @@ Definition unmarshal_feature (fi : mfeat) : feat :=
    patches/fix-C05-15-keep-remote-nodemanagement.diff and fix-C05-16-reply-keeps-device-information-entity.diff
    (the device information entity [0] and its NodeManagement feature 0 cannot be lost).  Every theorem is
    proved for both values (the proofs never look at the value); set it to what the tree under check contains. *)
-Definition protect0 : bool := false.
+Definition protect0 : bool := true.
 
 Definition is_devinfo (a : addr) : bool := protect0 && addr_eqb a [0].
 Arguments is_devinfo : simpl never.
